@@ -76,6 +76,13 @@ Theorem C08_prefix_once r s p u l d :
         u_name d = p ++ u ∧ u_scale d = p_val pd ∧ u_ref d = {[ u := 1%Qc ]} ∧ u_conv d = CScale ∧
         r_units (register r s) !! (p ++ u) = Some d.
 Proof. exact (prefix_once r s p u l d). Qed.
+(** … and carries prefix symbol ++ unit symbol as its symbol (what the short "~" formats print),
+    a unit defined without a symbol contributing its name *)
+Theorem C08_registered_symbol r p u l d pd ud :
+  prefixed_def r p u = Ok d → parse_unit_name r (p ++ u) = (p, u) :: l →
+  r_prefixes r !! p = Some pd → r_units r !! u = Some ud → p_symbol pd ++ u_symbol ud ≠ "" →
+  u_symbol d = p_symbol pd ++ u_symbol ud.
+Proof. exact (registered_symbol r p u l d pd ud). Qed.
 Theorem C08_offset_not_prefixable r s p u l pd ud :
   s ≠ "dimensionless" → r_units r !! s = None → parse_unit_name r s = (p, u) :: l → p ≠ "" →
   r_prefixes r !! p = Some pd → r_units r !! u = Some ud → u_multiplicative ud = false →
@@ -200,6 +207,13 @@ Example C08_default_registry_resolution :
     | Ok d => bool_decide (u_scale d = mkq 1000 1) && uc_eqb (u_ref d) (mkuc [("meter", mkq 1 1)])
     | Err _ => false
     end = true.
+Proof. vmc. Qed.
+Example C08_default_registry_stored_symbol :     (* "bar" and "bit" are defined without a symbol *)
+  let R := nreg_of default_raw in
+  snd (n_name_then_symbol R default_cfg true "mbar") = UOk "mbar"
+  ∧ snd (n_name_then_symbol R default_cfg true "kilobits") = UOk "kbit"
+  ∧ snd (n_name_then_symbol R default_cfg true "km") = UOk "km"
+  ∧ snd (n_name_then_symbol R default_cfg true "foo") = UErr KUndefined.
 Proof. vmc. Qed.
 Example C08_default_registry_delta :
   let R := nreg_of default_raw in
